@@ -6,6 +6,7 @@ import (
 	"os/exec"
 	"path/filepath"
 	"strings"
+	"time"
 
 	"verif/symx"
 )
@@ -94,6 +95,10 @@ func checkC18(c *Ctx) error {
 			}
 		}
 	}
+	// the assumption A-COMPILE is itself checked: the real Compile into a writer that may fail
+	if err := checkCompileWrites(c); err != nil {
+		return err
+	}
 	// counterexamples are confirmed against the real binary in a real environment
 	for _, f := range c.Findings {
 		if f.Property == "C18" && !f.Confirmed {
@@ -172,6 +177,9 @@ func replayC18(ws *Workspace, f *Finding) (*ReplayOutcome, error) {
 			os.Mkdir(filepath.Join(dir, "g.peg"), 0o755)
 		default:
 			os.WriteFile(filepath.Join(dir, "g.peg"), []byte(grammar), 0o644)
+			// the grammar is older than whatever already sits at the destination
+			old := time.Now().Add(-time.Hour)
+			os.Chtimes(filepath.Join(dir, "g.peg"), old, old)
 		}
 		if outSel == 0 {
 			outPath = inName + ".go"
@@ -252,3 +260,30 @@ func replayC18(ws *Workspace, f *Finding) (*ReplayOutcome, error) {
 }
 
 func init() { replayers["C18"] = replayC18 }
+
+// checkCompileWrites discharges A-COMPILE: (*tree.Tree).Compile (real code, back end stubs that
+// pass text to the destination) returns nil only if the output was written and no write failed.
+func checkCompileWrites(c *Ctx) error {
+	ws := c.WS
+	if err := ws.CopyHarness("c15", filepath.Join(ws.HX, "c15")); err != nil {
+		return err
+	}
+	l, err := LoadSSA(ws.HX, "./c15")
+	if err != nil {
+		return err
+	}
+	if err := l.FirstBad(); err != nil {
+		return err
+	}
+	var jobs []*Job
+	for _, b := range []int{0, 100, 200, 10, 210} {
+		jobs = append(jobs, &Job{PkgPath: "hx/c15", Entry: "CompileWrites", Args: []int{b}, Label: "compile-writes", Need: []string{"written", "error"}})
+	}
+	cfg := symx.DefaultConfig()
+	cfg.ValidateEvery = 10
+	cfg.ExtraStubs = symx.CompileStubs()
+	runner := &NativeRunner{Dir: ws.HX, PkgPath: "hx/c15", Entries: c15Entries}
+	res := RunJobs(l, jobs, c.Workers, cfg, c.Deadline)
+	c.Process(res, func(*Job) *NativeRunner { return runner })
+	return nil
+}
